@@ -18,7 +18,8 @@ TSizesAll == {None, 0 - 2, 0, 1, 2, 3, 4}
 
 Sig(i, idx, cc) ==
   CASE i = 1 -> Func("f1", "pub", <<>>, <<ArgM>>, TNone, None, idx, "")
-    [] i = 2 -> Func("f2", "pub", <<>>, <<ArgC, Arg("a", TNm("u32"))>>, TNm("u32"), None, idx, cc)
+    (* f2 is documented: the doc comment is one more attribute next to `index` and `calling_convention`, in any order *)
+    [] i = 2 -> Func("f2", "pub", <<" second function">>, <<ArgC, Arg("a", TNm("u32"))>>, TNm("u32"), None, idx, cc)
     [] i = 3 -> Func("f3", "priv", <<>>, <<ArgM, Arg("p", TCPtr(TNm("u8"))), Arg("b", TNm("u64"))>>,
                      TMPtr(TNm("V")), None, idx, "")
     (* a virtual function without receiver (its wrapper is outside the compilable fragment) *)
